@@ -356,6 +356,9 @@ theorem apply_reachable (nc : NetCfg) (s s' : Net) (d : Bool) (op : Op) (hr : Re
   | byz m =>
     simp only at h; split at h <;> cases h
     exact Reachable.step hr (NetStep.byz s m ‹_›)
+  | restart p =>
+    simp only at h; split at h <;> cases h
+    exact hr
 
 theorem runOps_reachable (nc : NetCfg) (ops : List Op) (s : Net) (hr : Reachable nc s) :
     Reachable nc (runOps nc s ops) := by
